@@ -321,7 +321,7 @@ def sweeperAct (b : BState) (visit : Option Nat) : Except String BState :=
                       sw := .store now shard rest id wk }
   | .store now shard rest id wk =>
     if !storeWritable b wk.key none then .error "not enabled: the store shard is read-locked"
-    else .ok (sweepNext { b with g := applyEvict g (id, wk.key, wk.weight), wuOwner := none } now shard rest)
+    else .ok (sweepNext { b with g := applyEvictId g (id, wk.key, wk.weight), wuOwner := none } now shard rest)
   | .fin => .ok { b with sw := .begin, g := { g with sweeperAlive := g.sweeperKeep } }
 
 def setClient (b : BState) (i : Nat) (pc : CPc) : BState := { b with cl := b.cl.set i pc }
